@@ -143,24 +143,39 @@ def run(repo: Repo, rep: Report, tier: str) -> None:
     pn = repo.func("DSLTransformer._parse_number")
     bases: dict[str, int] = {}
     default_base = None
-    for n in walk_local(pn.node):
-        if isinstance(n, ast.If):
-            prefixes = [s.value.lower() for c in ast.walk(n.test) if isinstance(c, ast.Call) and call_name(c) == "startswith"
-                        for s in ast.walk(c) if isinstance(s, ast.Constant) and isinstance(s.value, str)]
-            rets = [r for r in n.body if isinstance(r, ast.Return)]
-            if prefixes and rets and isinstance(rets[0].value, ast.Call) and call_name(rets[0].value) == "int" and len(rets[0].value.args) == 2:
-                b = rets[0].value.args[1]
-                if isinstance(b, ast.Constant):
-                    for p in set(prefixes):
-                        bases[p] = b.value
-            for r in n.orelse:
-                if isinstance(r, ast.Return) and isinstance(r.value, ast.Call) and call_name(r.value) == "int":
-                    a = r.value.args
-                    default_base = a[1].value if len(a) == 2 and isinstance(a[1], ast.Constant) else 10
-    for st in pn.node.body:
+    from ..core import _positive_test
+
+    def _int_base(st: ast.stmt | None):
         if isinstance(st, ast.Return) and isinstance(st.value, ast.Call) and call_name(st.value) == "int":
             a = st.value.args
-            default_base = a[1].value if len(a) == 2 and isinstance(a[1], ast.Constant) else 10
+            if len(a) == 2:
+                return a[1].value if isinstance(a[1], ast.Constant) else None
+            return 10
+        return None
+
+    def _chain(block: list[ast.stmt]) -> None:
+        # a dispatch written as if/elif/else or as early returns, with the test spelled positively or negatively: the arm taken when the
+        # prefix test holds gives that prefix's base; what is left when no test holds is the default
+        nonlocal default_base
+        for i, st in enumerate(block):
+            if isinstance(st, ast.If):
+                pos, keep = _positive_test(st.test)
+                prefixes = [k.value.lower() for c in ast.walk(pos) if isinstance(c, ast.Call) and call_name(c) == "startswith"
+                            for k in ast.walk(c) if isinstance(k, ast.Constant) and isinstance(k.value, str)]
+                cont = st.orelse if st.orelse else block[i + 1:]
+                holds, fails = (st.body, cont) if keep else (cont, st.body)
+                if prefixes:
+                    b = _int_base(holds[0] if holds else None)
+                    if b is not None:
+                        for p_ in set(prefixes):
+                            bases.setdefault(p_, b)
+                    _chain(fails)
+                    return
+            elif _int_base(st) is not None:
+                default_base = _int_base(st)
+                return
+
+    _chain(pn.node.body)
     want = {"0x": 16, "0o": 8, "0b": 2}
     for p, b in want.items():
         rep.check(bases.get(p) == b, "C11-R3", f"{pn.short} prefix {p} -> base {b}", f"parsed with base {bases.get(p)}", pn.loc())
